@@ -492,8 +492,7 @@ func (ln *Listener) Accept() (net.Conn, error) {
 		}
 		if ln.closed {
 			if ln.goexit {
-				ln.mu.Unlock()
-				runtime.Goexit()
+				runtime.Goexit() // runs the deferred Unlock
 			}
 			return nil, net.ErrClosed
 		}
@@ -584,3 +583,37 @@ func (d *Dialer) Dial(network, address string) (net.Conn, error) {
 
 // Link returns the link this end belongs to.
 func (e *End) Link() *Link { return e.l }
+
+// StartPump turns direction d into a free-running channel with a generated latency/segmentation pattern:
+// whenever bytes are pending it sleeps lat[i] (virtual clock inside a bubble) and then delivers seg[i] bytes
+// (seg[i] <= 0: one whole chunk). The goroutine ends when the writer end is closed and nothing is pending.
+func (l *Link) StartPump(d Dir, lat []time.Duration, seg []int) {
+	if len(lat) == 0 {
+		lat = []time.Duration{0}
+	}
+	if len(seg) == 0 {
+		seg = []int{0}
+	}
+	go func() {
+		for i := 0; ; i++ {
+			l.mu.Lock()
+			h := l.h[d]
+			for h.pendingLen == 0 && !h.wclosed && !h.reset && !h.auto {
+				l.cond.Wait()
+			}
+			done := h.pendingLen == 0
+			l.mu.Unlock()
+			if done {
+				return
+			}
+			if w := lat[i%len(lat)]; w > 0 {
+				time.Sleep(w)
+			}
+			if n := seg[i%len(seg)]; n > 0 {
+				l.DeliverBytes(d, n)
+			} else {
+				l.DeliverChunk(d)
+			}
+		}
+	}()
+}
